@@ -31,7 +31,7 @@ ASSUMPTIONS = [
     '1e-7 relative tolerance (scipy quad, default 1.49e-8, integrating '
     'across the kinks of log-linear conductivity)',
 ]
-LEVELS = [-291.7, -183.1, -15.74, -5.167, 38.78, 168.3, 1000.0]
+LEVELS = [-291.7, -183.1, -15.74, 0.0, 38.78, 168.3, 1000.0]
 PATTERNS = {
     'rising': lambda i, n: 10.0 ** (-3 + 7.0 * i / max(n - 1, 1)),
     'flat': lambda i, n: 1.002,
